@@ -98,10 +98,14 @@ func PipeIO(writer io.Writer, reader io.Reader) (n int64, err error) {
 		close(errC)
 	}()
 	written, err := io.Copy(writer, pr)
-	select {
-	case err = <-errC:
-		return 0, err
-	default:
+	if err != nil {
+		// the destination failed: stop the producer and report that error
+		_ = pr.CloseWithError(err)
+		return written, err
 	}
-	return written, err
+	// the pipe was read up to EOF: the producer is done, collect its verdict
+	if err = <-errC; err != nil {
+		return 0, err
+	}
+	return written, nil
 }
